@@ -32,6 +32,9 @@ func c11Scenario(name string) *Scenario {
 		return &Scenario{Name: name, Genesis: harness.BuildGenesis(c01Genesis()), T0: harness.T0, Events: c01Events()}
 	case "c05":
 		return vestScenario(name, "C11", c05Cfg())
+	case "c06":
+		// one owner, three pools maturing at different times: withdrawals that pay from several pools at once
+		return vestScenario(name, "C11", c06Cfg())
 	case "c10":
 		var evs []Ev
 		for _, e := range c10Events(false) {
@@ -205,10 +208,10 @@ func ReplicaMain(jobFile, outFile string, only int, variant int) int {
 }
 
 func runC11(rc *RunCtx) {
-	replicas, depth := 2, map[string]int{"c01": 3, "c05": 3, "c10": 3, "c13": 2, "c15": 3, "c17": 3, "c11dist": 4}
+	replicas, depth := 2, map[string]int{"c01": 3, "c05": 3, "c06": 4, "c10": 3, "c13": 2, "c15": 3, "c17": 3, "c11dist": 4}
 	if rc.Thorough() {
 		replicas = 4
-		depth = map[string]int{"c01": 4, "c05": 4, "c10": 4, "c13": 3, "c15": 4, "c17": 4, "c11dist": 6}
+		depth = map[string]int{"c01": 4, "c05": 4, "c06": 5, "c10": 4, "c13": 3, "c15": 4, "c17": 4, "c11dist": 6}
 	}
 	self, err := os.Executable()
 	if err != nil {
@@ -219,7 +222,7 @@ func runC11(rc *RunCtx) {
 	cov := map[string]interface{}{}
 	totalTraces, totalSteps, states, transitions := 0, 0, 0, 0
 	var samples []interface{}
-	names11 := []string{"c11dist", "c01", "c05", "c10", "c13", "c15", "c17"}
+	names11 := []string{"c11dist", "c01", "c05", "c06", "c10", "c13", "c15", "c17"}
 	for _, name := range names11 {
 		scn := c11Scenario(name)
 		sys := scnSystem{scn}
